@@ -9,35 +9,44 @@ META = {
             "cache key (SmpModel.v: Store::Controller::peek/find/allowSharing/anchorToCache/syncCollapsed/allowCollapsing, "
             "StoreEntry::setPublicKey/setPrivateKey/complete/abort paths, Transients get/addWriterEntry/addReaderEntry/"
             "completeWriting/evictCached/disconnect, MemStore startCaching/write/completeWriting/disconnect/anchorToCache/"
-            "updateAnchored, cacheHit's processMiss rule, the three reuse decisions) running on method-level StoreMap anchors "
-            "and the method-level ReadWriteLock: for ALL event sequences (arrivals at any worker, fetch starts, origin "
-            "header/data/end/early-close, CollapsedForwarding queue drains, transaction ends, purges, in any order) and all "
-            "object parameters: (1) at most one StoreEntry among all workers holds the Transients write lock of the key, "
-            "i.e. at most one public fetch is in progress; (2) the number of origin requests equals the number of "
-            "processMiss executions, and an arrival that finds the in-progress entry performs none at that step; "
-            "(3) every byte count held by a StoreEntry, by the shared memory-cache anchor and delivered to a client is at "
-            "most what the origin sent for that version; (4) a client is only shown a complete message (outcome Full) when "
-            "the copy it holds has the full length of a version whose origin message ended properly — never for a fetch "
-            "that was cut. The method-level lock used by these theorems is proved equal, method by method and for every "
-            "quiescent lock state, to a solo run of the atomic-operation ReadWriteLock model of property C54. "
+            "updateAnchored, cacheHit's processMiss rule, the three reuse decisions of haveParsedReplyHeaders) running on "
+            "method-level StoreMap anchors and the method-level ReadWriteLock. (1) For ALL event sequences (arrivals at any "
+            "worker, fetch starts, origin header/data/end/early close, CollapsedForwarding queue drains, transaction ends, "
+            "purges, reloads, in any order) and all object parameters: an event contacts the origin iff it is the "
+            "processMiss of a request that missed or must re-forward; the number of origin requests of a run equals the "
+            "number of such steps; the step in which a request reaches a worker never does, whatever it finds. (2) For any "
+            "number of processes calling the StoreMap anchor methods in any order: at most one holds the Transients entry "
+            "for writing, and readers coexist with it only after its startAppending. (3) All arrival orders of a bounded "
+            "burst, exhaustively (3 workers, leader anywhere, up to 3 joiners before the origin answered and up to 2 after "
+            "the header and part of the body, each at any worker, length known or unknown): a complete cacheable response "
+            "costs exactly ONE origin request, during the fetch and in total, and every client holds the complete first "
+            "response; when the origin closes early no client is shown the first response as complete. (4) The method-level "
+            "lock equals, method by method, a solo run of the atomic-operation ReadWriteLock model of property C54 (all "
+            "flags, up to 4 concurrent readers). (5) Witness, outside the premise: two lookups before either registration "
+            "=> two origin requests. "
             "Tie: the extracted protocol model is run on the canonical schedule of each generated burst and its predicted "
-            "observation (origin request counts before/after the end of the fetch, and per client: complete copy of "
+            "observation (origin request counts before the end of the fetch and in total; per client: complete copy of "
             "fetch 1 / of a later fetch / visibly truncated) is diffed against the REAL squid (built from the working tree) "
-            "driven in SMP mode (3 workers, individually addressed) and non-SMP mode between raw-socket clients and a gated "
-            "origin that releases header / body / end (or early close) only when the driver has seen the joiners' requests.",
-    "note": "partial: the theorems are about the protocol model; that the event-driven proxy follows it rests on the "
-            "end-to-end correspondence (bursts of 2..20 requests, Content-Length / chunked / close-delimited, complete and "
-            "truncated, cacheable / shareable-only (503) / non-shareable (no-store, over maximum_object_size_in_memory) "
-            "responses). 'At most one origin request' is proved in the form (1)+(2); the oracle checks the count itself on "
-            "squid for complete cacheable responses. Outside the property's premise and observed on the real squid: two "
-            "requests reaching two different workers within the same few microseconds (neither sees the other's "
-            "Transients entry yet) both go to the origin (2 of 150 simultaneous pairs); the model shows the same for "
-            "EFind,EFind,EStart,EStart (theorem C18_simultaneous_misses_fetch_twice). One key only; no cache_dir; hash "
-            "collisions between keys, Vary, revalidation collapsing and ICP/HTCP are not modelled. Trusted: Coq kernel, "
-            "extraction, vlib/lab.py, checks/smp_common.py stubs. SMP kids need ${localstatedir}/run/squid "
-            "(/usr/local/squid/var/run/squid), which the check creates if missing.",
-    "technique": "Coq proof (inductive invariants over all event sequences of a protocol step function; method-level lock "
-                 "refinement to the C54 atomic model by symbolic execution) + end-to-end differential correspondence of the "
+            "driven in SMP mode (3 workers, individually addressed ports) and non-SMP mode between raw-socket clients and a "
+            "gated origin that releases header / body / end (or early close) only after the driver has sent the joiners' "
+            "requests; the oracle checks the property itself on squid's answers.",
+    "note": "partial: (1) is accounting (origin requests = processMiss executions), not by itself 'at most one'; 'at most "
+            "one origin request and identical complete copies' is proved for the bounded bursts of (3) by exhaustive "
+            "evaluation of the model and otherwise rests on the end-to-end correspondence (bursts of 2..20 requests, "
+            "Content-Length / chunked / close-delimited, complete and cut at random points, sizes around the 32 KB shared "
+            "page, cacheable / shareable-only (503) / non-shareable (no-store, above maximum_object_size_in_memory)); the "
+            "general invariant 'a copy marked complete has the full length of a properly ended origin response' is not "
+            "proved for all event sequences. That the event-driven proxy follows the model rests on the correspondence. "
+            "Outside the property's premise and seen on the real squid: two requests reaching two different workers within "
+            "the same few microseconds both go to the origin (2 of 150 simultaneous pairs); theorem "
+            "C18_simultaneous_misses_fetch_twice shows the same in the model. After an early close, re-forwarding joiners of "
+            "other workers each make their own origin request (unknown-length responses are not readable across workers "
+            "while being written); several of them race for the cache slot, so late joiners are not generated for such "
+            "scenarios. One key only; no cache_dir; hash collisions between keys, Vary, collapsed revalidation and ICP/HTCP "
+            "are not modelled. Trusted: Coq kernel, extraction, vlib/lab.py, checks/smp_common.py stubs. SMP kids need "
+            "${localstatedir}/run/squid (/usr/local/squid/var/run/squid); the check creates it if missing.",
+    "technique": "Coq proof (accounting lemma per protocol function lifted to all event sequences by induction; counting invariant "
+                 "over all method sequences of a process population; exhaustive vm_compute sweeps lifted by membership lemmas) + end-to-end differential correspondence of the "
                  "extracted model against the running squid (SMP and non-SMP) + independent oracle",
 }
 
@@ -193,7 +202,7 @@ def run_impl(L, scenarios):
     with concurrent.futures.ThreadPoolExecutor(max_workers=int(os.environ.get("VERIF_C18_PAR", "6"))) as ex:
         out = list(ex.map(run_one, jobs))
     for which in ("smp", "one"):
-        bad = _state[which].log_has("assertion failed", "FATAL:")
+        bad = _state[which].log_has("assertion failed", "FATAL: Received", "FATAL: dying")
         if bad:
             out = [o + " squid-log:" + "+".join(bad) for o in out]
     return out
